@@ -22,13 +22,20 @@ extern const void *g_mac_key; extern size_t g_mac_keylen; extern const void *g_m
 extern const void *g_ver_keymat; extern const void *g_ver_data; extern size_t g_ver_len; extern int g_ver_hash, g_ver_pss, g_ver_family;
 extern const void *g_ver_sig; extern size_t g_ver_siglen; extern const void *g_ver_raw_r, *g_ver_raw_s; extern size_t g_ver_raw_n; extern int g_ver_valid;
 extern const void *g_sgn_keymat; extern const void *g_sgn_data; extern size_t g_sgn_len; extern int g_sgn_hash, g_sgn_pss, g_sgn_done;
-const void *g_der_buf; const ECDSA_SIG *g_der_sig;
+extern const void *g_der_buf; extern const ECDSA_SIG *g_der_sig;
 
-static const struct evp_md_st md256 = { 256 }, md384 = { 384 }, md512 = { 512 }, mdnull = { 0 };
-const EVP_MD *EVP_sha256(void) { return &md256; }
-const EVP_MD *EVP_sha384(void) { return &md384; }
-const EVP_MD *EVP_sha512(void) { return &md512; }
-const EVP_MD *EVP_md_null(void) { return &mdnull; }
+/* (DFCC makes every static arbitrary on entry: digest descriptors are allocated per call) */
+static const EVP_MD *mk_md(int bits)
+{
+	struct evp_md_st *m = malloc(sizeof(*m));
+	__CPROVER_assume(m != NULL);
+	m->bits = bits;
+	return m;
+}
+const EVP_MD *EVP_sha256(void) { return mk_md(256); }
+const EVP_MD *EVP_sha384(void) { return mk_md(384); }
+const EVP_MD *EVP_sha512(void) { return mk_md(512); }
+const EVP_MD *EVP_md_null(void) { return mk_md(0); }
 
 static int family_of(int id)
 {
